@@ -116,6 +116,11 @@ def run(run, rng):
     if run.shard[0] == 0 or run.tier == 'thorough':
         run.ev('big_duplicate_structure_cases')
         run.guard(big_dup_case(rng), check_case, seconds=300)
+    if run.shard[0] == 0:
+        from .. import trained
+        for zc in trained.ZERO_KEYSPACE_CASES:
+            run.ev('zero_keyspace_trainings')
+            run.guard({'train': dict(zc), 'spec': {'base': [], 'prince': [], 'pool': 'trained'}, 'flags': {'skip_brute': False, 'all_lower': False, 'folder': 'Grammar'}}, check_case, seconds=120)
     for i in range(N[run.tier]):
         case = gen_case(rng)
         run.guard(case, check_case, seconds=60)
